@@ -1,3 +1,4 @@
+import DSV.FactsOK.SrcC12
 import DSV.Generated.Facts
 import DSV.EVM.Codec
 /-!
